@@ -1825,8 +1825,6 @@ class InventoryTreeTransform(DiskTreeTransform):
             except BaseException:
                 mover.rollback()
                 raise
-            else:
-                mover.apply_deletions()
         from bzrformats.inventory_delta import InventoryDelta
 
         if self.final_file_id(self.root) is None:
@@ -1834,6 +1832,10 @@ class InventoryTreeTransform(DiskTreeTransform):
         if not isinstance(inventory_delta, InventoryDelta):
             inventory_delta = InventoryDelta(list(inventory_delta))
         self._tree.apply_inventory_delta(inventory_delta)
+        # Discard the replaced content only once the metadata describes the
+        # new layout: a failure here must not leave the inventory describing
+        # files that are no longer in place.
+        mover.apply_deletions()
         self._apply_observed_sha1s()
         self._done = True
         self.finalize()
